@@ -8,7 +8,7 @@ import "encoding/json"
 func init() {
 	all := []flowOracle{flowTransparent, flowExactlyOnce(true), flowExactlyOnce(false), flowPinned, flowRotation, flowViaRR, flowStamped, flowResponseVia}
 	addCheck(&Check{ID: "F00", Level: "exploration", Rule: "all call flows, all oracles (development aid)",
-		Run: func(c *Ctx) { RunFlows(c, all...) },
+		Run: func(c *Ctx) { RunFlows(c, all...); RunFlowsConcurrent(c, all...) },
 		Replay: func(c *Ctx, raw json.RawMessage) string {
 			cl, _ := ReplayFlow(raw, all...)
 			return cl
